@@ -53,13 +53,36 @@ long extremeNumbers(const std::string& s) {
   }
   return n;
 }
+// a class count in the thousands and beyond: the verbose reader lists the classes with getCategory(i) / getProbability(i), each a walk
+// through a std::map, so it is quadratic in the class count (it terminates: about 100 CPU-seconds under ASan at 200 000 classes) and
+// the CPU-time hang oracle would misreport it.  Ordinary runs do not create NEW ones (counts up to 4096 are explored).
+long largeClassCounts(const std::string& s) {
+  long n = 0;
+  for (size_t p = s.find("n="); p != std::string::npos; p = s.find("n=", p + 1)) {
+    if (p > 0 && (std::isalnum(static_cast<unsigned char>(s[p - 1])) || s[p - 1] == '_' || s[p - 1] == '.')) continue;
+    size_t e = s.find_first_of(",)\n", p + 2); std::string v = s.substr(p + 2, e == std::string::npos ? std::string::npos : e - p - 2);
+    if (!v.empty() && v.find_first_not_of("0123456789") == std::string::npos && (v.size() > 9 || atol(v.c_str()) > 4096)) ++n;
+  }
+  return n;
+}
 long riskScore(const Doc& d) {
   long n = 0;
+  for (auto& f : d.stored) if (d.kind == K_DIST) n += largeClassCounts(f);
   for (auto& f : d.stored) if (d.kind == K_DIST) n += extremeNumbers(f);
+  // vector / sequence descriptions of an option file: a NEW number that would make a sequence of millions of elements is not created either
+  if (d.kind == K_OPT) for (auto& f : d.stored) {
+    size_t b = 0;
+    while (b < f.size()) {
+      size_t e = f.find('\n', b); if (e == std::string::npos) e = f.size();
+      std::string line = f.substr(b, e - b);
+      if ((line.find("grid.") != std::string::npos || line.find("vec") != std::string::npos || line.find("seq") != std::string::npos) && Exec::seqHazard(line)) ++n;
+      b = e + 1;
+    }
+  }
   return n;
 }
 
-void genReads(Rng& rng, const Swarm& sw, Plan& p, int kind, long docIdx) {
+void genReads(Rng& rng, const Swarm& sw, Plan& p, int kind, long docIdx, bool numcalc = false) {
   long nreads = rng.range(1, 3);
   for (long q = 0; q < nreads; ++q) {
     std::string rk; long opts = rng.below(1 << 12);
@@ -72,6 +95,7 @@ void genReads(Rng& rng, const Swarm& sw, Plan& p, int kind, long docIdx) {
     if (rk == "r.optfile" || rk == "r.optmap" || rk == "r.parseopts") {
       if (rk != "r.parseopts" && rng.chance(0.7)) p.ops.push_back(Op("r.resolve", 0, rng.below(12)));
       if (rng.chance(0.7)) p.ops.push_back(Op("r.query", 0, rng.below(64), 0, rng.below(14)));
+      if (numcalc ? rng.chance(0.9) : rng.chance(0.05)) p.ops.push_back(Op("r.numcalc", 0, rng.below(16)));
     }
     if (rng.chance(0.1)) p.ops.push_back(Op(rng.chance(0.5) ? "r.lines" : "r.tok", docIdx, rng.below(64), chunkPick(rng, sw.pChunk), rng.below(1 << 10)));
   }
@@ -93,7 +117,7 @@ public:
     i.real = {"writers: DataTable::write (ostream and OutputStream overloads)", "BppODiscreteDistributionFormat::writeDiscreteDistribution", "BppOParametrizableFormat::write", "ParameterList::printParameters", "IntervalConstraint::getDescription",
               "readers: DataTable::read + editing calls", "FileTools::getNextLine / putStreamIntoVectorOfStrings", "AttributesTools::getAttributesMapFromFile (real scratch files) / getAttributesMap / resolveVariables / parseOptions (include chains, cycles, absent file)",
               "ApplicationTools::get*Parameter / getVectorParameter (both) / getVectorOfVectorsParameter / getMatrixParameter / getAFilePath / matchingParameters", "BppODiscreteDistributionFormat::readDiscreteDistribution", "IntervalConstraint::readDescription",
-              "KeyvalTools::parseProcedure / multipleKeyvals / singleKeyval / changeKeyvals", "NestedStringTokenizer", "StringTokenizer", "ComputationTree", "TextTools (through the readers)"};
+              "KeyvalTools::parseProcedure / multipleKeyvals / singleKeyval / changeKeyvals", "NumCalcApplicationTools::getVector / seqFromString / getParameterGrid (on the option map just read)", "NestedStringTokenizer", "StringTokenizer", "ComputationTree", "TextTools (through the readers)"};
     i.stub = {"SimOutBuf (store written bytes)", "SimInBuf (serve stored bytes in 1..n byte chunks)", "harness writer for option files, include chains, key=value procedures and formulas (documented syntax; no library writer exists)", "scratch directory out/tmp/sst-<pid>-<n>/ for the file-based readers", "SimParams (AbstractParametrizable exposing addParameter_)"};
     i.rule = "plans: 1-4 transactions of write -> 0-2 storage faults (explicit kind/offset/byte operands) -> 1-3 reads through the natural or a foreign reader with randomised reader options and read chunking, plus follow-up calls on the object just read; enumerated prefix: every cut point of 27 small documents; non-trivial = >=3 completed steps and >=1 fault actually fired; distinct = distinct fingerprint of the executed op-kind/outcome sequence";
     i.simTime = "steps (no clock in these components)";
@@ -102,7 +126,7 @@ public:
                     "reach:AttributesTools::getAttributesMapFromFile", "reach:AttributesTools::getAttributesMap", "reach:AttributesTools::resolveVariables", "reach:AttributesTools::parseOptions",
                     "reach:ApplicationTools::getParameter", "reach:ApplicationTools::getVectorParameter", "reach:ApplicationTools::matchingParameters",
                     "reach:BppODiscreteDistributionFormat::readDiscreteDistribution", "reach:IntervalConstraint::readDescription", "reach:KeyvalTools::parseProcedure", "reach:KeyvalTools::multipleKeyvals",
-                    "reach:KeyvalTools::singleKeyval", "reach:KeyvalTools::changeKeyvals", "reach:NestedStringTokenizer", "reach:StringTokenizer", "reach:StringTokenizer::unparseRemainingTokens", "reach:ComputationTree",
+                    "reach:KeyvalTools::singleKeyval", "reach:NumCalcApplicationTools::getVector", "reach:NumCalcApplicationTools::seqFromString", "reach:NumCalcApplicationTools::getParameterGrid", "raised:NumCalcApplicationTools::getVector", "raised:NumCalcApplicationTools::seqFromString", "raised:NumCalcApplicationTools::getParameterGrid", "reach:KeyvalTools::changeKeyvals", "reach:NestedStringTokenizer", "reach:StringTokenizer", "reach:StringTokenizer::unparseRemainingTokens", "reach:ComputationTree",
                     "raised:DataTable::read", "raised:DataTable::edit", "raised:AttributesTools::resolveVariables", "raised:AttributesTools::parseOptions", "raised:ApplicationTools::getParameter",
                     "raised:BppODiscreteDistributionFormat::readDiscreteDistribution", "raised:IntervalConstraint::readDescription", "raised:KeyvalTools::parseProcedure", "raised:KeyvalTools::multipleKeyvals",
                     "raised:NestedStringTokenizer", "raised:StringTokenizer", "raised:ComputationTree",
@@ -113,6 +137,7 @@ public:
                      "unparseRemainingTokens is not called on NestedStringTokenizer (the class records no separators; independent of the input)",
                      "table editing calls use index operands up to one past the end and sizes up to one off; tables whose counters have wrapped after an earlier (allowed) edit are left alone",
                      "a NEW numeric distribution argument of magnitude >= 1e6, or a NEW zero/negative argument of a TruncExponential, is never created by the generated faults (known finding hang:r.dist:out-of-range-number: the discretisation does not terminate for such parameter values; each hang costs the driver the CPU limit per execution); kept as known/C16-hang-dist-overflowing-exponent.replay and known/C16-hang-truncexp-lambda-zero.replay",
+                     "a NEW class count above 4096 is never created by the generated faults: the verbose distribution reader is quadratic in the class count (terminates, but beyond the CPU-time limit of the hang oracle under ASan); counts up to 4096 are explored",
                      "allocation failure is not injected; ASan max_allocation_size_mb=256 turns unbounded allocation into a report"};
     i.ubsanGates = true;
     return i;
@@ -168,6 +193,7 @@ public:
       int kind = static_cast<int>(rng.weighted(sw.kindW));
       long shape = rng.below(1 << 16);
       if (kind == K_DIST) shape = shape % 160 + 160 * 15;
+      if (kind == K_OPT && rng.chance(0.3)) shape |= 1L << 20;          // option file that also carries vector / sequence descriptions and a parameter grid
       Op w(writerOp(kind), static_cast<long>(rng.next() & 0x3fffffff), shape, rng.below(13), 0);
       p.ops.push_back(w);
       long docIdx = written < static_cast<long>(MAXDOCS) ? written : (written - static_cast<long>(MAXDOCS)) % static_cast<long>(MAXDOCS);
@@ -196,7 +222,7 @@ public:
           p.ops.push_back(fo); break;
         }
       }
-      genReads(rng, sw, p, kind, docIdx);
+      genReads(rng, sw, p, kind, docIdx, kind == K_OPT && ((shape >> 20) & 1));
     }
     if (sw.risky) genTrigger(rng, p, written < static_cast<long>(MAXDOCS) ? written : 0, tier);
     return p;
